@@ -1194,7 +1194,12 @@ impl<T: TypeConfig> RaftRoleState for LeaderState<T> {
                         "my({}) term < request one, now I will step down to Follower",
                         my_id
                     );
-                    //TODO: if there is a bug?  self.update_current_term(vote_request.term);
+                    // Adopt the higher term and revoke the lease before stepping down, as the
+                    // VoteRequest / AppendEntries branches do: otherwise the fast read paths keep
+                    // serving until BecomeFollower is processed, and an AppendResult of the old term
+                    // that is handled first re-arms the lease.
+                    self.update_current_term(cluste_conf_change_request.term);
+                    self.shared_state.lease.revoke();
                     self.send_become_follower_event(
                         Some(cluste_conf_change_request.id),
                         &internal_event_tx,
